@@ -1,7 +1,8 @@
 import I2P.Driver.DataOps
+import I2P.Driver.KacOps
 open I2P.Driver
 
-def allOps : List (String × Op) := dataOps
+def allOps : List (String × Op) := dataOps ++ kacOps
 
 def step (line : String) : String :=
   match line.trimAscii.toString.splitOn " " with
